@@ -266,6 +266,50 @@ func extract(repo, out string) error {
 		return codes
 	}
 	nvCodes, pvCodes := checkerCodes("noVerifyChecker"), checkerCodes("peerSignVerifier")
+	// the checkers carry configuration only: no caches, pools or other state surviving a call
+	stateless := true
+	if gs, err := goast.Parse(filepath.Join(repo, "net/secureservice/credential.go")); err == nil {
+		want := map[string]string{"noVerifyChecker": "cred compatibleVersions", "peerSignVerifier": "protoVersion clientVersion account compatibleVersions"}
+		seen := 0
+		for _, d := range gs.F.Decls {
+			gd, isG := d.(*ast.GenDecl)
+			if !isG || gd.Tok != token.TYPE {
+				continue
+			}
+			for _, sp := range gd.Specs {
+				ts := sp.(*ast.TypeSpec)
+				st, isSt := ts.Type.(*ast.StructType)
+				w, known := want[ts.Name.Name]
+				if !isSt || !known {
+					continue
+				}
+				seen++
+				var names []string
+				for _, f := range st.Fields.List {
+					for _, n := range f.Names {
+						names = append(names, n.Name)
+					}
+					if len(f.Names) == 0 {
+						names = append(names, "<embedded>")
+					}
+				}
+				if strings.Join(names, " ") != w {
+					stateless = false
+				}
+			}
+		}
+		if seen != 2 {
+			stateless = false
+		}
+		// package-level mutable state used by the checkers would defeat the same purpose
+		for _, d := range gs.F.Decls {
+			if gd, isG := d.(*ast.GenDecl); isG && gd.Tok == token.VAR {
+				stateless = false
+			}
+		}
+	} else {
+		stateless = false
+	}
 	// tryWriteErrAndClose: errors that are not HandshakeError are sent as Unexpected; ErrUnexpectedPayload closes silently
 	tw := g.Fn("handshake", "tryWriteErrAndClose")
 	if tw == nil || !goast.Contains(g, tw, "if err == ErrUnexpectedPayload {") || !goast.Contains(g, tw, "ackErr = handshakeproto.Error_Unexpected") || !goast.Contains(g, tw, "ackErr = he.e") {
@@ -292,6 +336,7 @@ func extract(repo, out string) error {
 		fmt.Fprintf(&b, "/-- release() clears this pooled field -/\ndef releaseResets_%s : Bool := %s\n", k, goast.LeanBool(reset[k]))
 	}
 	fmt.Fprintf(&b, "/-- wire codes of the rejection paths of noVerifyChecker.CheckCredential / peerSignVerifier.CheckCredential, in source order -/\ndef noVerifyErrCodes : List Nat := %s\ndef verifierErrCodes : List Nat := %s\n", list(nvCodes), list(pvCodes))
+	fmt.Fprintf(&b, "/-- noVerifyChecker / peerSignVerifier have exactly their configuration fields (no cache, pool or other state that survives a CheckCredential call), credential.go declares no package variable -/\ndef checkersStateless : Bool := %s\n", goast.LeanBool(stateless))
 	fmt.Fprintf(&b, "def errUnexpectedCode : Nat := %d\ndef errUnexpectedPayloadCode : Nat := %d\n", enum["Error_Unexpected"], errVars["ErrUnexpectedPayload"])
 	b.WriteString("end AnySync.Generated.Handshake\n")
 	return os.WriteFile(filepath.Join(out, "HandshakeConsts.lean"), []byte(b.String()), 0o644)
